@@ -350,6 +350,37 @@ impl FunctionCompiler<'_> {
             return array.into();
         }
 
+        // a plain value where an optional or an error union is expected (`limit : ?i64 : 5;`):
+        // the value is the payload, and the discriminant behind it says so. Without this the
+        // constant was just the payload, and what a reader took for the discriminant was the
+        // byte that happened to follow it.
+        if to.is_tagged_union() && !from.is_tagged_union() {
+            let (payload_ty, discrim) = match to.absolute_ty() {
+                Ty::Optional { .. } if *from == Ty::Nil => (None, 0u8),
+                Ty::Optional { sub_ty } => (Some(*sub_ty), 1),
+                Ty::ErrorUnion {
+                    error_ty,
+                    payload_ty,
+                } => {
+                    if from.is_functionally_equivalent_to(error_ty, true) {
+                        (Some(*error_ty), 0)
+                    } else {
+                        (Some(*payload_ty), 1)
+                    }
+                }
+                _ => return data,
+            };
+
+            let mut bytes = vec![0u8; to.size() as usize];
+            if let Some(payload_ty) = payload_ty {
+                let payload = self.cast_const_data(data, from, payload_ty);
+                let len = payload.len().min(payload_ty.size() as usize);
+                bytes[..len].copy_from_slice(&payload[..len]);
+            }
+            bytes[to.enum_layout().unwrap().discriminant_offset() as usize] = discrim;
+            return bytes.into();
+        }
+
         if !(from.is_int() || from.is_float()) || !(to.is_int() || to.is_float()) {
             return data;
         }
